@@ -216,6 +216,11 @@ def run(chk):
             if ev['e'] in ('pop', 'query'):
                 chk.count('call:' + ev['e'])
         bad = tm.mon_types(sim, sigtable) + tm.mon_c18_queues(sim)
+        if flavour == 'terminate' and meta['quiescent'] and meta['term'] and not meta['hard']:
+            # nothing more can happen and termination was requested: every started transfer has its finished signal
+            for (sig, what) in tm.mon_c09(sim, sent, meta['term'], meta['hard']):
+                if sig in ('C09:started-transfer-not-completed', 'C09:finished-twice', 'C09:unstarted-not-reported', 'C09:send-queue-not-empty'):
+                    bad.append((sig.replace('C09:', 'C18:at-end-'), what))
         sc.report(chk, 'C18', bad, sim, sent, meta)
         sims.append((sim, '%s %d' % (flavour, i)))
         if len(sims) >= 40:
